@@ -95,6 +95,13 @@ def m3_gmm(ck, em, rng, count):
         seed = rng.randrange(10 ** 6)
         r = np.random.RandomState(seed)
         X, init = gt.make_problem(r, degenerate=True)
+        if t % 4 == 1:
+            # as many Gaussians as features: the shapes where a floor array given per feature, per Gaussian or per
+            # cell can be mistaken for one another
+            for _ in range(40):
+                if np.asarray(init["means"]).shape[0] == np.asarray(init["means"]).shape[1] > 1:
+                    break
+                X, init = gt.make_problem(r, degenerate=True)
         sw = gt.SWITCHES[1 + t % 7]
         cap = int(r.randint(2, 6))
         trainer = "map" if t % 3 == 0 else "ml"
@@ -103,9 +110,19 @@ def m3_gmm(ck, em, rng, count):
             prior = em.GMMMachine(len(init["weights"]))
             prior.weights, prior.means, prior.variances = init["weights"], init["means"], init["variances"]
         obj = lambda m: float(np.asarray(m.log_likelihood(X)).mean()) if np.all(np.isfinite(np.asarray(m.variances))) else float("nan")
+        # two traces in three with user-set floors high enough to bind: a scalar, one floor per feature (1-D), one per
+        # Gaussian ((C, 1)), or one per cell ((C, D)), with unequal entries
+        C_, D_ = np.asarray(init["means"]).shape
+        floors, form = None, "default"
+        if t % 3:
+            base = float(np.median(np.var(X, axis=0))) * 10.0 ** r.uniform(-3, 0) + 1e-6
+            form = ["scalar", "per feature", "per feature", "per Gaussian", "per cell"][r.randint(0, 5)]
+            floors = {"scalar": base, "per feature": base * 10.0 ** r.uniform(-2, 1, size=D_),
+                      "per Gaussian": base * 10.0 ** r.uniform(-2, 1, size=(C_, 1)),
+                      "per cell": base * 10.0 ** r.uniform(-2, 1, size=(C_, D_))}[form]
         try:
-            ms, A = gt.trajectory(em, X, init, cap, sw, obj, None, trainer=trainer, prior=prior)
-            final = gt.fit(gt.new_machine(em, init, cap, None, sw, trainer, prior), X)
+            ms, A = gt.trajectory(em, X, init, cap, sw, obj, None, trainer=trainer, prior=prior, floors=floors)
+            final = gt.fit(gt.new_machine(em, init, cap, None, sw, trainer, prior, floors=floors), X)
         except Exception as e:
             ck.violation("M3:GmmTrain:Raised", {"mechanism": "M3", "meta": {"seed": seed, "trainer": trainer, "switches": sw},
                                                 "detail": "%s: %s" % (type(e).__name__, e)})
@@ -114,6 +131,7 @@ def m3_gmm(ck, em, rng, count):
         tr["dir"] = "none"          # validity only: ascent is C03 / C05's subject
         trs.append(tr)
         meta.append({"seed": seed, "trainer": trainer, "switches(um,uv,uw)": sw, "cap": cap, "n": len(X), "C": len(init["weights"]),
+                     "D": int(D_), "floors": form if floors is None else [form, np.asarray(floors).tolist()],
                      "why": [e["why"] for e in tr["ev"] if e.get("why")]})
     verdicts = traces.validate(ck, "gmmvalid", ck.work, trs)
     for tr, me, (v, pos) in zip(trs, meta, verdicts):
